@@ -1,9 +1,10 @@
 (* ALL programs, every schedule: the keyword arguments of every body / get_default invocation are built from the declared
    dependencies of the node: one value per declared parameter, each of them a value that was stored as the result of the declared
    source -- for a switch parameter: of the case recorded for the switch, which is the case labelled with the value the decision node
-   stored (C03, C09). *)
+   stored (C03, C09); the additional_data entry is the payload of a Recurrent marker stored by the destination of a recurrent
+   subgraph that starts at the node (C11). *)
 From MLPE Require Import Engine.Run Proofs.ExecLemmas Proofs.Evolve Proofs.StackInv Proofs.Micro Proofs.PlainLive Proofs.PlainCore Proofs.PlainInv
-     Proofs.PlainExec Proofs.PlainEvents Proofs.PipeAll Proofs.ValuesAll Proofs.StoreAll Proofs.SwitchAll Proofs.AssocLemmas.
+     Proofs.PlainExec Proofs.PlainEvents Proofs.PipeAll Proofs.ValuesAll Proofs.StoreAll Proofs.SwitchAll Proofs.RecAll Proofs.AssocLemmas.
 Require Import Lia.
 
 Lemma fold_left_ext_eq {A B} (f g : A -> B -> A) (l : list B) (a : A) : (forall x y, f x y = g x y) -> fold_left f l a = fold_left g l a.
@@ -56,8 +57,13 @@ Section ArgsAll.
     if is_switch G p
     then exists lbl c, sel_ok P tr p lbl c /\ was_stored tr c v
     else was_stored tr p v.
+  Definition ad_ok (tr : list obs) (n : key) (ad : option value) : Prop :=
+    match ad with
+    | None => True
+    | Some v => exists dst res, na_start (nattr_of G dst) = Some n /\ is_rec res = true /\ In (OSetResult dst res) tr /\ v = rec_data res
+    end.
   Definition args_ok (tr : list obs) (i : nat) (kw : kwargs) : Prop :=
-    exists n val ad, real_index n = i /\ gen_kwargs n val ad = Some kw /\ forall p v, val p = Some v -> prov tr p v.
+    exists n val ad, real_index n = i /\ gen_kwargs n val ad = Some kw /\ (forall p v, val p = Some v -> prov tr p v) /\ ad_ok tr n ad.
 
   Lemma was_stored_mono new tr k v : was_stored tr k v -> was_stored (new ++ tr) k v.
   Proof. intros [H|H]; [left; apply in_or_app; right; exact H|right; exact H]. Qed.
@@ -68,8 +74,16 @@ Section ArgsAll.
     unfold prov. destruct (is_switch G p); [|apply was_stored_mono].
     intros [l [c [A B]]]. exists l, c. split; [apply sel_ok_mono; exact A|apply was_stored_mono; exact B].
   Qed.
+  Lemma ad_ok_mono new tr n ad : ad_ok tr n ad -> ad_ok (new ++ tr) n ad.
+  Proof.
+    destruct ad as [v|]; [|auto]. intros [dst [res (A & B & C & D)]]. exists dst, res. split; [exact A|]. split; [exact B|]. split; [|exact D].
+    apply in_or_app. right. exact C.
+  Qed.
   Lemma args_ok_mono new tr i kw : args_ok tr i kw -> args_ok (new ++ tr) i kw.
-  Proof. intros [n [val [ad (A & B & C)]]]. exists n, val, ad. split; [exact A|split; [exact B|]]. intros p v Hv. apply prov_mono. exact (C p v Hv). Qed.
+  Proof.
+    intros [n [val [ad (A & B & C & D)]]]. exists n, val, ad. split; [exact A|split; [exact B|]]. split; [|apply ad_ok_mono; exact D].
+    intros p v Hv. apply prov_mono. exact (C p v Hv).
+  Qed.
 
   Lemma result_was_stored st k : Istore st -> was_stored (st_trace st) k (get_result k true (st_store st)).
   Proof.
@@ -108,10 +122,10 @@ Section ArgsAll.
   Proof. unfold kw_TP, stack_kw. cbn. intros _ Hf g [<-|[]]. destruct f; try discriminate Hf; exact I. Qed.
 
   Lemma step_kwf t fr sg st f :
-    Istore st -> SwI P st -> kwf (st_trace st) fr -> In f (dir_frames (snd (step_frame P t fr sg st))) ->
+    Istore st -> SwI P st -> AdI P st -> kwf (st_trace st) fr -> In f (dir_frames (snd (step_frame P t fr sg st))) ->
     kwf (st_trace (fst (step_frame P t fr sg st))) f.
   Proof.
-    intros HI HS Hfr.
+    intros HI HS HA Hfr.
     destruct (ev_trace _ _ (ev_step_frame P t fr sg st)) as [new Etr]. rewrite Etr. clear Etr. intros Hin0. apply kwf_mono. revert Hin0. revert Hfr.
     destruct fr; destruct sg; cbn [step_frame]; unfold default_or_raise, reduced; repeat break_match;
       unfold emit_frames; cbn [snd dir_frames]; intros Hfr Hin;
@@ -119,7 +133,9 @@ Section ArgsAll.
     (* _execute_node computing the arguments *)
     exists n, (val_of st), (alookup key_eqb n (st_adddata st)). split; [reflexivity|]. split.
     - rewrite <- node_kwargs_gen. assumption.
-    - intros p9 v9 Hv9. apply val_of_prov; assumption.
+    - split; [intros p9 v9 Hv9; apply val_of_prov; assumption|].
+      unfold ad_ok. destruct (alookup key_eqb n (st_adddata st)) as [v9|] eqn:Ea; [|exact I].
+      destruct (HA n v9 Ea) as [dst [res (A1 & (A2 & A3) & A4)]]. exists dst, res. auto.
   Qed.
 
   (* ---- the history: invocations of a body or of get_default ---- *)
@@ -173,6 +189,7 @@ Section ArgsAll.
     - pose proof (creach_evolves P _ _ H) as Hev. destruct (IH Hev) as (A & B & Hh).
       pose proof (ev_next _ _ Hev) as Hn1. cbn in Hn1.
       pose proof (creach_store P _ _ H) as HI. pose proof (creach_switch P _ _ H) as HS.
+      destruct (creach_rec P _ _ H) as (_ & _ & HA).
       pose proof (B fr (or_introl eq_refl)) as Bfr.
       destruct (ev_trace _ _ (ev_step_frame P t fr sg st)) as [new Etr].
       assert (A1 : tasks_ok (kw_TP (st_trace (fst (step_frame P t fr sg st)))) (fst (step_frame P t fr sg st))).
@@ -180,7 +197,7 @@ Section ArgsAll.
         rewrite Etr. apply tasks_kw_mono. exact A. }
       assert (Hkk : stack_kw (st_trace (fst (step_frame P t fr sg st))) (dir_frames (snd (step_frame P t fr sg st)) ++ rest)).
       { intros f Hin. apply in_app_or in Hin. destruct Hin as [Hin|Hin].
-        - exact (step_kwf t fr sg st f HI HS Bfr Hin).
+        - exact (step_kwf t fr sg st f HI HS HA Bfr Hin).
         - rewrite Etr. apply kwf_mono. apply B. right. exact Hin. }
       assert (Hh1 : calls_ok (st_trace (fst (step_frame P t fr sg st)))).
       { destruct (step_calls t fr sg st) as [[o (Ho & Hco & E)]|[nw [E Hnw]]].
@@ -208,11 +225,12 @@ End ArgsAll.
 (* [gen_kwargs P n val ad]: the keyword arguments _get_node_kwargs builds for node n when [val p] is the value of source p and [ad]
    the additional_data entry of n; [prov P b p v]: in the history b, v was stored as the result of p -- for a switch p: of the case c
    recorded for p, where (p, lbl, c) follows the case table and lbl was stored by the decision node -- or v is None, which is also
-   what a source without a result yields *)
+   what a source without a result yields; [ad_ok P b n ad]: the additional_data entry, if any, is the payload of a Recurrent marker
+   that the destination of a recurrent subgraph starting at n stored in b *)
 Theorem arguments_come_from_the_declared_inputs_all_programs P :
   forall st, reachable P st ->
     forall a b i k kw, st_trace st = a ++ OStart i k kw :: b ->
-      exists n val ad, real_index n = i /\ gen_kwargs P n val ad = Some kw /\ forall p v, val p = Some v -> prov P b p v.
+      exists n val ad, real_index n = i /\ gen_kwargs P n val ad = Some kw /\ (forall p v, val p = Some v -> prov P b p v) /\ ad_ok P b n ad.
 Proof.
   intros st Hr a b i k kw E. destruct (creach_args P st None (reachable_creach P st Hr)) as (_ & _ & Hc).
   exact (Hc a (OStart i k kw) b i kw E eq_refl).
@@ -221,7 +239,7 @@ Qed.
 Theorem default_arguments_come_from_the_declared_inputs_all_programs P :
   forall st, reachable P st ->
     forall a b i kw, st_trace st = a ++ ODefault i kw :: b ->
-      exists n val ad, real_index n = i /\ gen_kwargs P n val ad = Some kw /\ forall p v, val p = Some v -> prov P b p v.
+      exists n val ad, real_index n = i /\ gen_kwargs P n val ad = Some kw /\ (forall p v, val p = Some v -> prov P b p v) /\ ad_ok P b n ad.
 Proof.
   intros st Hr a b i kw E. destruct (creach_args P st None (reachable_creach P st Hr)) as (_ & _ & Hc).
   exact (Hc a (ODefault i kw) b i kw E eq_refl).
